@@ -121,6 +121,16 @@ func (d *deepView) digestOf(v ssa.Value, fr *frame) digestInfo {
 	}
 	h := d.resolve(call.Call.Value, r.fr)
 	ctor, isCtor := h.v.(*ssa.Call)
+	if ta, isTA := h.v.(*ssa.TypeAssert); isTA && !isCtor {
+		// a state taken from a pool of reset states stands for what the pool's New constructs
+		if get, isGet := ta.X.(*ssa.Call); isGet && ir.CallID(get) == "sync.Pool.Get" {
+			pc, why := d.c.pooledCtor(get)
+			if pc == nil {
+				return digestInfo{why: "the hash is taken from a pool: " + why}
+			}
+			ctor, isCtor = pc, true
+		}
+	}
 	if !isCtor {
 		return digestInfo{why: "the hash is not a directly constructed value"}
 	}
@@ -174,6 +184,9 @@ func (d *deepView) digestOf(v ssa.Value, fr *frame) digestInfo {
 		if id := ir.CallID(call); id == "io.Copy" || id == "io.CopyN" || id == "io.CopyBuffer" {
 			if d.resolve(ir.StripIface(cc.Args[0]), di.fr).same(h) {
 				out.copies = append(out.copies, d.resolve(ir.StripIface(cc.Args[1]), di.fr))
+			} else if d.objectOf(cc.Args[0], di.fr).same(h) {
+				// the copy made by a helper that is handed the hash as a writer
+				out.copies = append(out.copies, d.objectOf(cc.Args[1], di.fr))
 			}
 		}
 	}
@@ -324,6 +337,8 @@ func (d *deepView) builderShape(fr *frame, b ssa.Value, depth int) string {
 			}
 		case "AddASN1UTCTime":
 			text = "UTCTIME"
+		case "AddASN1GeneralizedTime":
+			text = "GENTIME"
 		case "AddASN1BitString":
 			text = "BITSTRING"
 		default:
